@@ -1116,9 +1116,9 @@ def key_reaches(ctx, slot, got, f, case_small):
     field = SEC_FIELD[slot]
 
     def received(call):
-        ks = set(call['kwargs'])
+        ks = dict(call['kwargs'])
         for ch in call.get('children', []):
-            ks |= set(ch['kwargs'])
+            ks.update(ch['kwargs'])
         return ks
     skip = {field, 'python_file'}
     if slot == 'instrument':
@@ -1132,23 +1132,74 @@ def key_reaches(ctx, slot, got, f, case_small):
         calls = [got['calls'][-1]]
     else:
         calls = got['calls'][:1]
-    have = set()
+    have = {}
     for c in calls:
-        have |= received(c)
+        have.update(received(c))
     sel = dict(sec['scalars']).get(field, '')
     seln = str(sel).lower() if isinstance(sel, str) else 'list'
     if slot == 'observation' and any(k in dict(sec['scalars']) for k in OBS_FILE_KEYS):
         seln = 'file-key'
     if slot == 'instrument' and seln in ('snr', 'signalnoise'):
         seln = 'snr'
+
+    def judge(k, raw, got_kw, where, keyname):
+        if k not in got_kw:
+            ctx.violation(keyname, 'key %r set under %s was neither passed to the constructor nor reported as an error'
+                          % (k, where), case_small, dict(key=k, calls=[show_call(c) for c in got['calls']][:4]))
+            return False
+        exp = oracle_typed(raw)
+        if exp is not NotImplemented and not same_typed(exp, got_kw[k]):
+            ctx.violation('value:%s' % keyname.split(':', 1)[1],
+                          'key %r set under %s reached the constructor with a different value than the one written'
+                          % (k, where), case_small, dict(key=k, written=raw, received=clean_repr(got_kw[k])))
+            return False
+        return True
     for k, v in sec['scalars']:
         if k in skip:
             continue
-        if k not in have:
-            ctx.violation('unknownkey:%s:%s' % (slot, seln),
-                          'key %r set under [%s] was neither passed to the constructor nor reported as an error'
-                          % (k, hdr), case_small, dict(key=k, calls=[show_call(c) for c in got['calls']][:4]))
+        if not judge(k, v, have, '[%s]' % hdr, 'unknownkey:%s:%s' % (slot, seln)):
             return
+    # sub-sections: gases of [Chemistry] (built before it, in order), contributions of [Model] (built after it)
+    if slot in ('chemistry', 'model') and len(got['calls']) > len(sec['subs']):
+        n = len(sec['subs'])
+        subcalls = got['calls'][-1 - n:-1] if slot == 'chemistry' else got['calls'][len(got['calls']) - n:]
+        for (name, kv), c in zip(sec['subs'], subcalls):
+            kw = {}
+            kw.update(received(c))
+            for k, v in kv:
+                if k in ('gas_type', 'python_file') or (slot == 'chemistry' and k == 'molecule_name'):
+                    continue
+                if not judge(k, v, kw, '[[%s]]' % name, 'unknownkey:%s' % ('gas' if slot == 'chemistry'
+                                                                          else 'contribution')):
+                    return
+
+
+def oracle_typed(raw):
+    """the documented typing of a raw value where the documentation is unambiguous: decimal literals are floats,
+    the documented words are booleans, comma lists of decimal literals are lists of floats; else NotImplemented"""
+    def num(s):
+        m = DECIMAL.match(s)
+        if not m:
+            return None
+        e = int(m.group(2)[1:]) if m.group(2) else 0
+        if abs(e) > 300:
+            return None
+        return float(Fraction(s))
+    if isinstance(raw, list):
+        vals = [num(x) for x in raw]
+        return vals if raw and all(v is not None for v in vals) else NotImplemented
+    if raw.lower() in WORDS_T:
+        return True
+    if raw.lower() in WORDS_F:
+        return False
+    v = num(raw)
+    return v if v is not None else NotImplemented
+
+
+def same_typed(exp, got):
+    if isinstance(exp, list):
+        return isinstance(got, list) and len(got) == len(exp) and all(same_typed(a, b) for a, b in zip(exp, got))
+    return type(got) is type(exp) and got == exp
 
 
 def eval_file(ctx, case, scratch, count=True):
@@ -1259,7 +1310,13 @@ def judge_malformed(ctx, case, results, small):
         elif kind == 'unknown_subkey':
             ctx.violation('unknownkey:%s' % mal['target'], 'an unknown key in a sub-section was not reported',
                           small, dict(kind=kind))
-        # unknown_key / sibling_key: judged by key_reaches (the key may be legitimately known to the class)
+        elif kind == 'unknown_key' and case.get('flavour') == 'targeted':
+            ctx.violation('unknownkey:%s:%s' % (slot, seln), 'an unknown key under [%s] was not reported as an error'
+                          % mal['header'], small, dict(kind=kind))
+        elif kind == 'missing_selector' and case.get('flavour') == 'targeted':
+            ctx.violation('selector-ignored:%s=missing' % SEC_FIELD[slot],
+                          'a component section without its selector was not reported as an error', small, dict(kind=kind))
+        # unknown_key / sibling_key otherwise: judged by key_reaches (the key may be legitimately known to the class)
 
 
 # ----------------------------------------------------------------------------- transform stream
@@ -1690,6 +1747,44 @@ def gen_cli_case(rng, opac):
     return dict(file=f, customs=[], meta=meta, flavour='cli', malformed=None, spec=spec)
 
 
+def targeted_malformed(rng, base):
+    """one defect at a time on an otherwise valid, fully buildable file: the defect is the only possible error"""
+    out = []
+    f0 = base['file']
+
+    def variant(kind, slot, header, edit, target=None):
+        f = []
+        for name, sec in f0:
+            sc = list(sec['scalars'])
+            subs = [(n, list(kv)) for n, kv in sec['subs']]
+            if name == header:
+                sc, subs = edit(sc, subs)
+            f.append((name, dict(scalars=sc, subs=subs)))
+        out.append(dict(file=f, customs=[], meta=base['meta'] + [('targeted', kind, slot)], flavour='targeted',
+                        malformed=dict(kind=kind, slot=slot, target=target or slot, header=header)))
+    variant('unknown_contribution', 'model', 'Model',
+            lambda sc, subs: (sc, subs + [(str(rng.choice(['Foo', 'BHMie', 'Clouds', 'Mie'])), [])]), 'contribution')
+    variant('contribution_case', 'model', 'Model',
+            lambda sc, subs: (sc, [(subs[0][0].lower(), subs[0][1])] + subs[1:]), 'contribution')
+    variant('unknown_subkey', 'model', 'Model',
+            lambda sc, subs: (sc, subs[:-1] + [(subs[-1][0], subs[-1][1] + [('zzz_unknown', '1.0')])]), 'contribution')
+    variant('unknown_subkey', 'chemistry', 'Chemistry',
+            lambda sc, subs: (sc, [(subs[0][0], subs[0][1] + [('mix_ratios', '1e-4')])] + subs[1:]), 'gas')
+    for slot in ('chemistry', 'temperature', 'pressure', 'planet', 'star', 'model'):
+        hdr = SEC_HEADER[slot]
+        fld = SEC_FIELD[slot]
+        variant('unknown_key', slot, hdr, lambda sc, subs: (sc + [('zzz_unknown', '1.0')], subs))
+        variant('unknown_selector', slot, hdr,
+                lambda sc, subs, fld=fld: ([(k, v) for k, v in sc if k != fld] + [(fld, 'nonexistent')], subs))
+        if slot != 'planet':
+            variant('missing_selector', slot, hdr,
+                    lambda sc, subs, fld=fld: ([(k, v) for k, v in sc if k != fld], subs))
+    variant('unknown_selector', 'chemistry', 'Chemistry',
+            lambda sc, subs: (sc, [(subs[0][0], [(k, ('twopointt' if k == 'gas_type' else v)) for k, v in subs[0][1]])]
+                              + subs[1:]), 'gas')
+    return out
+
+
 def build_library(spec):
     """the same components through the library API"""
     cpath, ckw, gs = spec['chemistry']
@@ -1833,6 +1928,13 @@ def run(ctx):
             eval_cli(ctx, case, s.scratch)
             clear_caches()
             eval_file(ctx, case, s.scratch, count=False)
+            if i % 4 == 0:
+                for mc in targeted_malformed(rng, case):
+                    nv = len(ctx.violations)
+                    eval_file(ctx, mc, s.scratch)
+                    for v in ctx.violations[nv:]:
+                        v['case'] = dict(kind='file', file=mc['file'], customs=[], custom_src={},
+                                         malformed=mc['malformed'], flavour='targeted', meta=mc['meta'])
 
 
 def prepare_aux(scratch):
@@ -1843,6 +1945,8 @@ def prepare_aux(scratch):
 
 
 def replay(ctx, case):
+    if isinstance(case.get('case'), dict) and 'file' not in case and 'raw' not in case:
+        case = case['case']          # a replay file written by main.py wraps the case
     kind = case.get('kind', 'file')
     with Session(ctx) as s:
         prepare_aux(s.scratch)
